@@ -15,12 +15,20 @@ func genBatches(entries []gen.Entry, bound, batch int) (all []gen.Variant, batch
 	for i, e := range entries {
 		all = append(all, gen.Variants(e, i, bound)...)
 	}
-	for i := 0; i < len(all); i += batch {
-		j := i + batch
-		if j > len(all) {
-			j = len(all)
+	var cur []gen.Variant
+	for _, v := range all {
+		if v.Solo {
+			batches = append(batches, []gen.Variant{v})
+			continue
 		}
-		batches = append(batches, all[i:j])
+		cur = append(cur, v)
+		if len(cur) == batch {
+			batches = append(batches, cur)
+			cur = nil
+		}
+	}
+	if len(cur) > 0 {
+		batches = append(batches, cur)
 	}
 	return
 }
@@ -54,7 +62,13 @@ func runGEN(c *fw.Check) {
 	c.Rule = "generator self-check: every variant must be accepted by llvm-as"
 	nbad := 0
 	fw.ParallelFor(len(batches), func(i int) {
-		good := llvmFilter(batches[i], func(v gen.Variant, msg string) {
+		var usable []gen.Variant
+		for _, v := range batches[i] {
+			if !v.NoLLVM {
+				usable = append(usable, v)
+			}
+		}
+		good := llvmFilter(usable, func(v gen.Variant, msg string) {
 			nbad++
 			if nbad < 30 {
 				fmt.Printf("REJECTED %s %v\n%s\n%s\n", v.Entry, v.Devs, gen.Module([]gen.Variant{v}), fw.Trunc(msg, 300))
